@@ -163,6 +163,21 @@ EXTRA4 = {
 }
 for _k, _v in EXTRA4.items():
     CLAIMED[_k]['text'] += _v
+EXTRA5 = {
+ 'C01': ' R12: names of DDL objects go through the identifier quoting function.',
+ 'C02': ' R8: no schema-derived value is stored in the command context by the inheritance commands; R9 = C10.R2: a dropped pointer releases its target whatever its ownership (path fact).',
+ 'C04': ' R12: the canonical delete command is looked up by the key it was stored under; R13: after a rebase the command recomputes its own inheritance and walks the descendants closure (not the direct children) doing the same.',
+ 'C05': ' R10: the decision to drop a table reads the schema the object still exists in, and an object\'s own table is dropped with it.',
+ 'C06': ' R9: the cardinality of a path takes every trailing hop into account.',
+ 'C07': ' R11: members of compound (union / intersection) types get their rewrites; R12: a range that was not asked for descendants reads one type.',
+ 'C09': ' R13: a transaction-control unit that changes the compiler-side state is not cacheable; R14 = C17.R10: a worker remembers (LAST_STATE) only the state returned by a completed compile call, and it is the state it pickles into the reply.',
+ 'C10': ' R2: a dropped pointer releases its target on every path (no ownership test can skip the release).',
+ 'C12': ' R12: the common type of two collections hands one operand back only under an equality test of the two.',
+ 'C17': ' R9 also: no explicit raise precedes __sync__ in a worker entry point (an error reply acknowledges the transfer too); R10 = C09.R14.',
+ 'C18': ' R2 also: under the assumption that the non-printable guard matched, no open path of visit_Constant writes the value as is or dollar-quoted (path fact; single-character containment tests are independent of the guard); the slip battery covers the SQL source generator (memo keys).',
+}
+for _k, _v in EXTRA5.items():
+    CLAIMED[_k]['text'] += _v
 LINT_NOTE = (' Rule <id>.L is a battery of slip patterns scoped to the packages the property is anchored in (swapped arguments, like-for-like copies, mirrored / duplicated statements, dropped options, discarded updates, loop slips, memo keys that do not cover the inputs, identity keys, lossy-key maps, cache-key equality, arm-family copies, class-level shared tables, loop-invariant comprehension filters, truthiness tests on int-enum fields with a zero member); each pattern has no unaudited instance on the tree the rules were written against.')
 for _k in CLAIMED:
     CLAIMED[_k]['text'] += LINT_NOTE if _k != 'C10' else ''
